@@ -8,6 +8,7 @@ import (
 	"net/http"
 	"net/http/httptest"
 	"net/url"
+	"slices"
 	"strconv"
 	"strings"
 	"time"
@@ -31,9 +32,10 @@ type dims struct {
 	Router      string `json:"router"`
 	Flow        string `json:"flow"`
 	Alg         string `json:"alg"`
-	RotateTo    string `json:"rotate_to,omitempty"` // signing key is rotated to this alg before the follow-up step
-	KeyShape    string `json:"key_shape"`           // single | decoy-same | decoy-other | kidless | kidless-decoy-other
-	TokenType   string `json:"access_token_type"`   // opaque | jwt
+	RotateTo    string `json:"rotate_to,omitempty"`        // signing key is rotated to this alg before the follow-up step
+	KeyShape    string `json:"key_shape"`                  // single | decoy-same | decoy-other | kidless | kidless-decoy-other | ring
+	Ring        string `json:"signing_key_ring,omitempty"` // vstore.RotateOnRead: every SigningKey() read hands out the next of these
+	TokenType   string `json:"access_token_type"`          // opaque | jwt
 	Skew        string `json:"client_skew"`
 	IDTTL       string `json:"id_token_lifetime"`
 	AccessTTL   string `json:"access_ttl"`
@@ -80,7 +82,8 @@ type env struct {
 
 	algs    []jose.SignatureAlgorithm // every alg a token of this case may be signed with
 	kidless bool
-	dropID  []string // scopes the clients' RestrictAdditionalIdTokenScopes removes
+	dropID  []string    // scopes the clients' RestrictAdditionalIdTokenScopes removes
+	ring    []*keys.Key // ring stratum: the keys vstore.RotateOnRead cycles through
 	sigKey  *keys.Key
 	custom  customCfg
 	trace   []traceEntry
@@ -154,7 +157,34 @@ func newEnv(run *ev.Run, caseIdx, router int) *env {
 		oa := otherFamily(alg)
 		published = []*keys.Key{signingKey("op-decoy", oa, "decoy-"+string(oa)), e.sigKey}
 	}
-	if !e.kidless && r.IntN(3) == 0 {
+	if r.IntN(4) == 0 {
+		// ring stratum: 2-3 keys whose algorithms use DIFFERENT hash sizes; every SigningKey() read hands out the next
+		// one, so two reads inside one request see different keys
+		d.KeyShape, e.kidless = "ring", false
+		e.sigKey = signingKey("op-ring0", alg, "ring0-"+string(alg))
+		e.ring = []*keys.Key{e.sigKey}
+		classes := [][]jose.SignatureAlgorithm{{jose.RS256, jose.PS256, jose.ES256}, {jose.RS384, jose.PS384, jose.ES384}, {jose.RS512, jose.PS512, jose.ES512, jose.EdDSA}}
+		var others [][]jose.SignatureAlgorithm
+		for _, cl := range classes {
+			if !slices.Contains(cl, alg) {
+				others = append(others, cl)
+			}
+		}
+		r.Shuffle(len(others), func(i, k int) { others[i], others[k] = others[k], others[i] })
+		n := 1 + r.IntN(2)
+		for i := 0; i < n; i++ {
+			a := pick(r, others[i]...)
+			e.ring = append(e.ring, signingKey(fmt.Sprintf("op-ring%d", i+1), a, fmt.Sprintf("ring%d-%s", i+1, a)))
+			e.algs = append(e.algs, a)
+		}
+		var names []string
+		for _, k := range e.ring {
+			names = append(names, k.Kid)
+		}
+		d.Ring = strings.Join(names, ",")
+		published = slices.Clone(e.ring)
+		r.Shuffle(len(published), func(i, k int) { published[i], published[k] = published[k], published[i] })
+	} else if !e.kidless && r.IntN(3) == 0 {
 		ra := pick(r, keys.AllAlgs...)
 		d.RotateTo = string(ra)
 		e.algs = append(e.algs, ra)
@@ -239,6 +269,7 @@ func newEnv(run *ev.Run, caseIdx, router int) *env {
 	e.w = w
 	// the journal stays on: the oracle reads which scope lists the storage was handed for the user claims
 	w.Store.SetSigningKey(e.sigKey, published...)
+	w.Store.RotateOnRead = e.ring
 	w.Store.AccessTTL = accessTTL
 	if d.Extras && tokenType == op.AccessTokenTypeJWT {
 		w.Store.JWTProfileType = op.AccessTokenTypeJWT
